@@ -32,6 +32,7 @@ var c04Catalogue = []string{
 	"flag-cleared-trailer-kept", "flag-cleared-trailer-removed", "authcode-empty", "authcode-short", "authcode-long", "authcode-zero", "authcode-random",
 	"wrong-k1", "wrong-sid-signed", "wrong-sid-unsigned", "sessionless-wrapper", "plaintext-unsigned-session-sid", "unsigned-encrypted",
 	"pad-wrong-value", "pad-wrong-count", "pad-count-over-15", "pad-count-16", "integrity-pad-not-ff", "different-body-unsigned-same-seq",
+	"pad-sequential-17", "pad-sequential-24", "pad-sequential-40", "pad-sequential-200", "pad-sequential-255", "pad-last-byte-wrong", "pad-one-byte-wrong",
 }
 
 func init() {
@@ -268,6 +269,39 @@ func c04Forge(o c04One, b *refbmc.BMC, auth []byte, forgedBody []byte, r interfa
 		// only meaningful when the trailer has pad bytes; choose the message so that it does
 		d := se.Wrap(msg, refbmc.WrapOpts{PadByteSet: true, PadByte: 0x00})
 		return d, true
+	case "pad-sequential-17", "pad-sequential-24", "pad-sequential-40", "pad-sequential-200", "pad-sequential-255":
+		// a fully consistent pad 01,02,..,N,N with N above the block size, clear of the IV
+		var n int
+		fmt.Sscanf(o.Kind, "pad-sequential-%d", &n)
+		pt := append([]byte(nil), msg...)
+		for (len(pt)+n+1)%16 != 0 {
+			// lengthen the message body (keeping checksum 2 valid) until the total aligns
+			pt = append(pt[:len(pt)-1], 0, 0)
+			pt[len(pt)-1] = refbmc.Csum(pt[3 : len(pt)-1])
+		}
+		for i := 0; i < n; i++ {
+			pt = append(pt, byte(i+1))
+		}
+		pt = append(pt, byte(n))
+		return se.Wrap(nil, refbmc.WrapOpts{RawPlain: pt}), true
+	case "pad-last-byte-wrong", "pad-one-byte-wrong":
+		mm := append([]byte(nil), msg...)
+		want := 5
+		if o.Kind == "pad-one-byte-wrong" {
+			want = 1
+		}
+		// lengthen the message body until the pad has the wanted length
+		for (16-(len(mm)+1)%16)%16 != want {
+			mm = append(mm[:len(mm)-1], 0, 0)
+			mm[len(mm)-1] = refbmc.Csum(mm[3 : len(mm)-1])
+		}
+		pt := append([]byte(nil), mm...)
+		for i := 0; i < want; i++ {
+			pt = append(pt, byte(i+1))
+		}
+		pt[len(pt)-1] ^= 0x10 // only the last pad byte is wrong
+		pt = append(pt, byte(want))
+		return se.Wrap(nil, refbmc.WrapOpts{RawPlain: pt}), true
 	case "pad-wrong-value", "pad-wrong-count", "pad-count-over-15", "pad-count-16":
 		// valid MAC around a payload whose confidentiality pad is invalid
 		n := (16 - (len(msg)+1)%16) % 16
